@@ -261,23 +261,30 @@ func (o *Origin) handle(w http.ResponseWriter, r *http.Request) {
 	fm.byID[f.ID] = f
 	fm.mu.Unlock()
 
-	defer func() {
-		fm.mu.Lock()
-		list := fm.infl[f.Key]
-		for i, x := range list {
-			if x == f {
-				fm.infl[f.Key] = append(list[:i:i], list[i+1:]...)
-				break
+	// the contact stops counting as "in flight" at the moment the origin starts to answer (or to break the
+	// connection) - before the peer can observe the outcome. Otherwise a client that has already seen its
+	// answer could start the next step while this handler still looks busy (seen on a loaded machine).
+	var finishOnce sync.Once
+	finish := func() {
+		finishOnce.Do(func() {
+			fm.mu.Lock()
+			list := fm.infl[f.Key]
+			for i, x := range list {
+				if x == f {
+					fm.infl[f.Key] = append(list[:i:i], list[i+1:]...)
+					break
+				}
 			}
-		}
-		if len(fm.infl[f.Key]) == 0 {
-			delete(fm.infl, f.Key)
-		}
-		f.VEnd = fm.Clock()
-		f.EndSeq = Seq()
-		fm.mu.Unlock()
-		f.done.Store(true)
-	}()
+			if len(fm.infl[f.Key]) == 0 {
+				delete(fm.infl, f.Key)
+			}
+			f.VEnd = fm.Clock()
+			f.EndSeq = Seq()
+			fm.mu.Unlock()
+			f.done.Store(true)
+		})
+	}
+	defer finish()
 
 	var rep *Reply
 	if fn, _ := fm.script.Load().(func(*Fetch) *Reply); fn != nil {
@@ -300,6 +307,7 @@ func (o *Origin) handle(w http.ResponseWriter, r *http.Request) {
 		case <-r.Context().Done():
 		}
 	}
+	finish()
 	if rep.Drop {
 		if hj, ok := w.(http.Hijacker); ok {
 			if conn, _, err := hj.Hijack(); err == nil {
